@@ -461,10 +461,17 @@ theorem src_reverse_iter_lines_eq_model (c : List Nat) (bs pos lfuel : Nat) (pre
     intro s' h1 h2
     simp only [e3]
     exact rev_flush_spec s' h1 h2
+  -- a guard `if blocksize < 1: raise ValueError(...)` at the head of the function is decided by `hbs`
+  have hb1 : ¬ ((bs : Int) < 1) := by omega
+  have hb2 : ¬ ((bs : Int) ≤ 0) := by omega
+  have hb3 : (1 : Int) ≤ (bs : Int) := by omega
+  have hb4 : (0 : Int) < (bs : Int) := by omega
   cases preseek
-  · simp only [reverse_iter_lines, reverse_iter_lines.body, bytesLit_nat, Bool.false_eq_true, if_false] at hf ⊢
+  · simp only [reverse_iter_lines, reverse_iter_lines.body, bytesLit_nat, Bool.false_eq_true, if_false, hb1, hb2, hb3, hb4,
+      if_true, not_true_eq_false, not_false_eq_true, ge_iff_le, gt_iff_lt] at hf ⊢
     rw [rev_loop1_spec c bs hbs _ _ hk lfuel pos pos _ hf (Nat.le_refl _) rfl rfl rfl rfl rfl]
-  · simp only [reverse_iter_lines, reverse_iter_lines.body, bytesLit_nat, if_true, PyRt.len] at hf ⊢
+  · simp only [reverse_iter_lines, reverse_iter_lines.body, bytesLit_nat, if_true, PyRt.len, hb1, hb2, hb3, hb4, if_false,
+      not_true_eq_false, not_false_eq_true, ge_iff_le, gt_iff_lt] at hf ⊢
     rw [rev_loop1_spec c bs hbs _ _ hk lfuel c.length c.length _ hf (Nat.le_refl _) rfl rfl rfl rfl rfl]
 
 /-- `list(reverse_iter_lines(f, blocksize))` on a binary file with content `c` -/
